@@ -26,7 +26,14 @@ type KafkaMessageReceiver struct {
 	initialized    bool
 	initMutex      sync.RWMutex
 	partitionEOFs  map[int32]struct{} // partitions that have reported EOF at least once
-	initBuffer     map[string]*wireMessage
+	initBuffer     map[messageID]*wireMessage
+}
+
+// messageID identifies a message by its (type, key) pair; the init buffer is keyed by the pair itself because the
+// concatenation built by uniqueKey is ambiguous when the type contains '-' ("a-b"+"c" and "a"+"b-c")
+type messageID struct {
+	messageType string
+	key         string
 }
 
 const maxMessagesToReplay = 50000
@@ -36,7 +43,7 @@ func NewKafkaReceiver(config *config.InternalDataConfig) (Receiver, error) {
 	r := &KafkaMessageReceiver{
 		topic:      config.Params["messagetopic"],
 		initMutex:  sync.RWMutex{},
-		initBuffer: make(map[string]*wireMessage),
+		initBuffer: make(map[messageID]*wireMessage),
 	}
 
 	consumerConfigMap, err := r.buildConfigMap(config.Params)
@@ -208,7 +215,7 @@ func (r *KafkaMessageReceiver) processMessage(value []byte) {
 	metrics.Message().MessagesReceivedBytes.WithLabelValues("kafka", wireMsg.Message.MessageType, strconv.FormatBool(wireMsg.Acknowledged)).Add(float64(len(value)))
 
 	if !r.initialized {
-		r.initBuffer[uniqueKey(wireMsg.Message)] = wireMsg
+		r.initBuffer[messageID{wireMsg.Message.MessageType, wireMsg.Message.Key}] = wireMsg
 	} else {
 		if !wireMsg.Acknowledged {
 			r.deliverMessage(wireMsg.Message)
@@ -236,7 +243,7 @@ func (r *KafkaMessageReceiver) processInitBuffer() {
 	}
 
 	// free init buffer memory
-	r.initBuffer = make(map[string]*wireMessage)
+	r.initBuffer = make(map[messageID]*wireMessage)
 }
 
 // Shutdown stops the message consumer
